@@ -308,6 +308,10 @@ func (fr *FnRun) mapObj(st *State, m *MapV) *MapObjV {
 	if v, ok := st.heap[m.Obj]; ok {
 		return v.(*MapObjV)
 	}
+	if cv, ok := ex.constMapObjs[m.Obj]; ok {
+		st.heap[m.Obj] = cv
+		return cv
+	}
 	mo := ex.freshMap(m, m.Obj.Name)
 	st.heap[m.Obj] = mo
 	return mo
